@@ -59,6 +59,19 @@ func (c *Ctx) returnsByOutcome(fn *ssa.Function) (succ, fail []retInfo) {
 	ei := ir.ErrorResultIndex(fn.Signature)
 	for _, ret := range ir.NormalReturns(fn) {
 		ri := retInfo{ret, normGuards(fn, c.guardsOf(fn, ret))}
+		if ei >= 0 {
+			// `return f(x)`: the callee's verdict handed on unchanged is the pair
+			// `if err := f(x); err != nil { return err }; return nil`
+			if call, isCall := ir.ReturnResult(ret, ei).(*ssa.Call); isCall && ir.DefiniteNil(call) == ir.NilUnknown && call.Block() == ret.Block() {
+				d := "err:" + c.calleeName(call)
+				if ir.IsErrorType(call.Type()) {
+					gs := c.guardsOf(fn, ret)
+					succ = append(succ, retInfo{ret, normGuards(fn, append(append([]string{}, gs...), "nil("+d+")"))})
+					fail = append(fail, retInfo{ret, normGuards(fn, append(append([]string{}, gs...), "nonnil("+d+")"))})
+					continue
+				}
+			}
+		}
 		if ei >= 0 && ir.DefiniteNil(ir.ReturnResult(ret, ei)) == ir.IsNil {
 			succ = append(succ, ri)
 		} else {
@@ -66,6 +79,25 @@ func (c *Ctx) returnsByOutcome(fn *ssa.Function) (succ, fail []retInfo) {
 		}
 	}
 	return
+}
+
+// complementary: a holds nil(X) (empty(X)) where b holds nonnil(X) (nonempty(X)), or the
+// other way round, for some X.
+func complementary(a, b []string) bool {
+	neg := func(g string) string {
+		for _, p := range [][2]string{{"nil(", "nonnil("}, {"nonnil(", "nil("}, {"empty(", "nonempty("}, {"nonempty(", "empty("}} {
+			if strings.HasPrefix(g, p[0]) {
+				return p[1] + strings.TrimPrefix(g, p[0])
+			}
+		}
+		return ""
+	}
+	for _, g := range a {
+		if n := neg(g); n != "" && !strings.HasPrefix(g, "nil(err:") && !strings.HasPrefix(g, "nonnil(err:") && subset([]string{n}, b) {
+			return true
+		}
+	}
+	return false
 }
 
 func subset(a, b []string) bool {
@@ -234,7 +266,7 @@ func runC05(c *Ctx) {
 			failures: [][]string{
 				{"loop($0.Spec.Devices)", "nonnil(err:cdi.newDevice)"},
 				{"loop($0.Spec.Devices)", "present(make:map[$0.Spec.Devices[*].Name])"},
-				{"empty(make:map)", "loopdone($0.Spec.Devices)"},
+				{"empty(make:map)"}, // tested after the loop on the map, or before it on the list
 			},
 			calls: []callSpec{
 				{"specs", "ValidateVersion", map[int]string{0: "$0.Spec"}},
@@ -305,6 +337,27 @@ func c05CheckValidator(c *Ctx, vs validatorSpec) {
 					}
 				}
 				sort.Strings(lst[i].guards)
+			}
+		}
+	}
+	// two success returns that split one condition (`if x == nil { return nil }; return f(x)`)
+	// are the one merged return of the if-form, whose guard set is what both have in common
+	for merged := true; merged; {
+		merged = false
+		for i := 0; i < len(succ) && !merged; i++ {
+			for j := i + 1; j < len(succ) && !merged; j++ {
+				if !complementary(succ[i].guards, succ[j].guards) {
+					continue
+				}
+				var common []string
+				for _, g := range succ[i].guards {
+					if subset([]string{g}, succ[j].guards) {
+						common = append(common, g)
+					}
+				}
+				succ[i].guards = common
+				succ = append(succ[:j], succ[j+1:]...)
+				merged = true
 			}
 		}
 	}
@@ -669,7 +722,7 @@ func c05TypeSwitch(c *Ctx) {
 				nots++
 			}
 		}
-		if g == "nil($1)" || (nots == len(handled) && nots > 0) {
+		if g == "nil($1)" || (nots == len(handled) && nots > 0) || subset([]string{"nil(err:k8s.ValidateAnnotations)"}, s.guards) {
 			continue // nil input, or the default arm after all cases failed
 		}
 		r.Violation("C05.3", "accepting-arm", c.pos(s.ret), "ValidateSpecAnnotations returns success without validating under ["+g+"]")
